@@ -66,9 +66,9 @@ CHECKS = {
    text="swap_integer proved (all 32-bit words) to be the byte reversal, an involution, and to recover the TRR magic number; swap_endian total on its domain. g96 / xyz / lammpstrj write-read round trips, frame-k extraction, TRR decoding for both byte orders and precisions (triclinic boxes), velocity reversal per format, and mdp / LAMMPS / CP2K template edits (exact entries, idempotent, CP2K as section trees) are bounded native grids.",
    note="Only swap_integer/swap_endian are deductive; decimal-text round trips and regex editing are outside SMT reach and are bounded stand-ins.",
    design="5/C19"),
- "C12": dict(level="other", technique=E1 + "; the frame loops of the LAMMPS / CP2K / GROMACS / ASE drivers are slices extracted mechanically from the real _propagate_from ASTs; E2 for calculate_order; bounded native run for the in-process TurtleMD loop",
-   text="add_to_path's stop/success rule proved for all inputs; the LAMMPS frame-consumption loop verified with a ghost frame index for any number of ready frames (frame k evaluated with its own positions, velocities, box; stored config (file,k)) -- this refuted the original tree (fix a417b25); the LAMMPS failure statement raises iff exit code != 0 and not terminated by us; calculate_order applies the velocity-reversal flag (E2); EngineBase.propagate (common set-up) dumps the start point, reverses velocities iff the direction changes, starts the engine exactly once from that file / frame 0 / requested direction and returns its result; CP2K consumption loop (positions and velocities of frame k paired, one file frame per phase point, queues stay aligned) and failure statement; GROMACS frame loop (own x/v/box, velocity direction as announced by vel_rev -- refuted on the original tree: fix fa7c73d); ASE in-process loop (order computed from the arrays written as frame k); TurtleMD loop natively (first frame, stored = recomputed orders, stop rule).",
-   note="External programs and integrators not verified. Not covered: polling/waiting code around the loops, GromacsRunner, TurtleMD loop deductively, GROMACS process clean-up, time-reversal retrace. Assumed: the readers hand out frame k as their k-th item (C13), dump_frame/_reverse_velocities/_propagate_from of the concrete engines behind EngineBase.propagate.",
+ "C12": dict(level="other", technique=E1 + "; the frame loops of the LAMMPS / CP2K / GROMACS / ASE / TurtleMD drivers are slices extracted mechanically from the real _propagate_from ASTs; E2 for calculate_order; bounded native run for the in-process TurtleMD loop",
+   text="add_to_path's stop/success rule proved for all inputs; the LAMMPS frame-consumption loop verified with a ghost frame index for any number of ready frames (frame k evaluated with its own positions, velocities, box; stored config (file,k)) -- this refuted the original tree (fix a417b25); the LAMMPS failure statement raises iff exit code != 0 and not terminated by us; calculate_order applies the velocity-reversal flag (E2); EngineBase.propagate (common set-up) dumps the start point, reverses velocities iff the direction changes, starts the engine exactly once from that file / frame 0 / requested direction and returns its result; CP2K consumption loop (positions and velocities of frame k paired, one file frame per phase point, queues stay aligned) and failure statement; GROMACS frame loop (own x/v/box, velocity direction as announced by vel_rev -- refuted on the original tree: fix fa7c73d); ASE and TurtleMD in-process loops (order computed from the arrays written as frame k); TurtleMD additionally natively (first frame, stored = recomputed orders, stop rule).",
+   note="External programs and integrators not verified. Not covered: polling/waiting code around the loops, GromacsRunner, GROMACS process clean-up, time-reversal retrace. Assumed: the readers hand out frame k as their k-th item (C13), dump_frame/_reverse_velocities/_propagate_from of the concrete engines behind EngineBase.propagate.",
    design="5/C12"),
  "C14": dict(level="other", technique=E1 + "; delete_old bookkeeping as an inductive step on the real treat_output over abstract states (symnp harness); store/load by a bounded native round trip",
    text="_generate_file_names proved for all path lengths (every frame -> join(target, basename(source)) with its index, one destination per source file, only referenced files moved); the delete_old block removes exactly the oldest queued path's files and only when the queue is full, never files of a live, initial or just-replaced path (N=2,3, all queue lengths, numbering variants); PathStorage.output + load_path round trip (multi-file, reversed, revisited files, missing energies, index None) natively.",
